@@ -233,6 +233,8 @@ def main(args):
                 nt = bool(res['lift'])
             elif kind == 'symline':
                 nt = res.get('symline', 1) is not None
+            elif kind == 'affs':
+                nt = len(res['dump_mem']) >= 2
             else:
                 nt = len(res['r']) >= 2
             if nt:
